@@ -390,6 +390,13 @@ func c20Chains(r *Run) {
 			ch{"x", []string{"math::pow(2)", "math::sqrt()", "math::add(y)", "truncPrec(4)"}, []c20Var{fl("x", x), fl("y", -0.125)}},
 			ch{"x", []string{"math::max(y)", "math::min(3)", "math::mod(2)"}, []c20Var{fl("x", x), fl("y", 4)}})
 	}
+	// arguments that name the chain's OWN head variable: they are the variable's value, not the intermediate result
+	for _, x := range []float64{4, -2.5, 0.75} {
+		chains = append(chains,
+			ch{"x", []string{"math::sub(y)", "math::div(x)"}, []c20Var{fl("x", x), fl("y", 1)}},
+			ch{"x", []string{"math::inc()", "math::mul(x)"}, []c20Var{fl("x", x)}},
+			ch{"x", []string{"math::pow(2)", "math::sub(x)", "math::max(x)", "roundPrec(2)"}, []c20Var{fl("x", x)}})
+	}
 	chains = append(chains,
 		ch{"ts", []string{`time::add("90 m")`, "time::date(time::RFC3339)"}, []c20Var{tm}},
 		ch{"ts", []string{`time::add("-3 d")`, `time::add("2 h")`, `time::date("%Y-%m-%d %H:%M")`}, []c20Var{tm}},
@@ -406,14 +413,16 @@ func c20Chains(r *Run) {
 		// a later modifier does not start from the earlier one's result shows here
 		if c.head == "x" || c.head == "ts" {
 			cur := c.vars[0]
+			cur.Name = "cur"
 			okSeq, why := true, ""
 			var last rendered
 			for si, st := range c.steps {
-				vars := append([]c20Var{cur}, c.vars[1:]...)
+				// the step's own head is the variable cur (the previous result); the chain's variables keep their values
+				vars := append([]c20Var{cur}, c.vars...)
 				isLast := si == len(c.steps)-1
-				tpl := "{%= " + c.head + "|" + st + " %}"
+				tpl := "{%= cur|" + st + " %}"
 				if c.head == "ts" && !isLast {
-					tpl = "{%= ts|" + st + "|time::date(time::RFC3339Nano) %}"
+					tpl = "{%= cur|" + st + "|time::date(time::RFC3339Nano) %}"
 				}
 				last = c20Render(tpl, vars)
 				if last.Panic != "" || last.Err != nil {
@@ -429,14 +438,14 @@ func c20Chains(r *Run) {
 						okSeq, why = false, "intermediate instant does not parse: "+string(last.Out)
 						break
 					}
-					cur = c20Var{Name: "ts", Kind: "time", Text: c20TimeText(t.UTC())}
+					cur = c20Var{Name: "cur", Kind: "time", Text: c20TimeText(t.UTC())}
 				} else {
 					f, err := strconv.ParseFloat(string(last.Out), 64)
 					if err != nil {
 						okSeq, why = false, "intermediate value does not parse: "+string(last.Out)
 						break
 					}
-					cur = fl("x", f)
+					cur = fl("cur", f)
 				}
 			}
 			sig := "chain-steps " + forms[0] + " " + c20VarsText(c.vars)
